@@ -845,6 +845,11 @@ impl<T: Transport, Env: UtpEnvironment> VirtualSocket<T, Env> {
                 payload_size,
             } => {
                 debug!(payload_size, ?self.last_sent_seq_nr, ?rewind_to, "MTU probe expired");
+                #[cfg(ikatson_librqbit_utp_verif)]
+                crate::verif::emit(|| crate::verif::VerifEvent::MtuProbeExpired {
+                    id: self.verif_id.clone(),
+                    payload_size,
+                });
                 // In case the retransmit timer expired, this is not "real" expiry, but expiry due to us sending
                 // too large segment. So ignore the retransmit timer, pretend it didn't fire.
                 self.timers.retransmit.turn_off("MTU probe is not real RTO");
